@@ -1,5 +1,7 @@
 import MpVerif.C06.Lemmas
 import MpVerif.C06.LemmasReal
+import MpVerif.C06.LemmasPB
+import MpVerif.Gen.C06Prepro
 import Mathlib.Data.Rat.Floor
 import Mathlib.Algebra.Order.Ring.Pow
 /-!
@@ -36,28 +38,22 @@ theorem C06_lin (e : Env) (val : Val) (h : Feasible e val) (c0 : Rat) (ts : LinT
 
 
 /-- **Quadratic expressions** (`ComputeBoundsAndType(QuadAndLinTerms)`, `ProductBounds` incl. the `x = y` square rule,
-`AddBoundsAndType`), for every box with **finite** bounds, every coefficient list, every mix of types.
-
-Partial: the full statement drops `hf : FinBox e`
-
-  theorem C06_quad (e val) (h : Feasible e val) (c0 ts qs) : ∃ pre, prepro e (.quad c0 ts qs) = .keep pre _ ∧ pre.Contains (eval …)
-
-What is missing is only `ProductBounds` on boxes with infinite bounds (the NaN-skipping `min_element`/`max_element` over
-corner products such as `0·∞`): everything else (`boundsQuadT_sound`, `addBounds_sound`, linear part, constant, narrowing)
-is proved for arbitrary `ER` bounds given soundness of `productBounds`.  Infinite boxes are covered by the correspondence
-and the sampling oracle only. -/
-theorem C06_quad_partial (e : Env) (val : Val) (h : Feasible e val) (hf : FinBox e) (c0 : Rat) (ts : LinT) (qs : QuadT) :
+`AddBoundsAndType`): bounds and INTEGER type are sound for EVERY box — finite, half-infinite and infinite bounds (the corner
+products `0·∞ = NaN` are skipped by `min_element`/`max_element` or make the whole bound NaN, which `narrow_result_bounds` drops) —
+every coefficient list and every mix of types.  (Round 4: the restriction to finite boxes of the former `C06_quad_partial` is gone.) -/
+theorem C06_quad (e : Env) (val : Val) (h : Feasible e val) (c0 : Rat) (ts : LinT) (qs : QuadT) :
     ∃ pre, prepro e (.quad c0 ts qs) = .keep pre (.quad c0 ts qs) ∧
       pre.Contains (Con.eval tr trp val (.quad c0 ts qs)) := by
   refine ⟨_, rfl, ?_⟩
-  have hq := boundsQuadT_sound e val h (productBounds_sound e val h hf) qs
+  have hq := boundsQuadT_sound e val h (productBounds_sound_all e val h) qs
   have := fresh_narrow_sound _ _ (withConst_sound _ _ c0 (addBounds_sound _ _ _ _ (boundsLin_sound e val h ts) hq))
   simpa [Con.eval, boundsQL, add_comm] using this
 
-/-- **`ProductBounds`** on finite boxes: corner products for `x ≠ y`, `[0 or min(lb²,ub²), max(lb²,ub²)]` for `x = y`. -/
-theorem C06_product_bounds (e : Env) (val : Val) (h : Feasible e val) (hf : FinBox e) (x y : Nat) :
+/-- **`ProductBounds`** on every box: corner products for `x ≠ y` (16 finite/infinite shapes of the four bounds, NaN corners
+included), `[0 or min(lb²,ub²), max(lb²,ub²)]` for `x = y`. -/
+theorem C06_product_bounds (e : Env) (val : Val) (h : Feasible e val) (x y : Nat) :
     lbW (productBounds e x y).1 (val x * val y) ∧ ubW (productBounds e x y).2 (val x * val y) :=
-  productBounds_sound e val h hf x y
+  productBounds_sound_all e val h x y
 
 /-! ## abs -/
 
@@ -1197,5 +1193,263 @@ theorem C06_prop_down_and_ub_unsound :
   refine ⟨fun i => if i = 0 then 1 else 0, ?_, Or.inr rfl, Or.inl rfl, by norm_num⟩
   simp [Con.eval, truthy, b2r]
   norm_num
+
+/-! ## ties to the definitions generated from the source (`lean/MpVerif/Gen/C06Prepro.lean`, translators/gen_c06.py) -/
+
+theorem isInteger_fin (c : Rat) : isInteger (fin c) = ratIsInt c := by
+  simp only [isInteger, ER.floor, ER.ceil, ER.eq, ratIsInt]
+  by_cases h : c.den = 1
+  · have hc : c = (c.num : Rat) := (Rat.coe_int_num_of_den_eq_one h).symm
+    have h1 : c.floor = c.num := by rw [hc]; simp [Rat.floor_intCast]
+    have h2 : c.ceil = c.num := by simp [Rat.ceil, h]
+    simp [h, h1, h2]
+  · simp only [h, decide_false, decide_eq_false_iff_not]
+    intro heq
+    have h1 : ((c.floor : Int) : Rat) ≤ c := Rat.floor_le c
+    have h2 : c ≤ ((c.ceil : Int) : Rat) := Rat.le_ceil
+    have : c = ((c.floor : Int) : Rat) := le_antisymm (by rw [heq]; exact h2) h1
+    apply h
+    rw [this]; simp
+
+/-- decoding of a generated overload's effect into the model's `Decision` -/
+def GOut.toDecision (g : GOut) (con : Con) : Decision :=
+  match g.rv with
+  | some (.v n) => .alias n
+  | some (.lin (fin c) v (fin c0)) => .redirect (.lin c0 [(c, v)])
+  | some _ => .unsupported
+  | none => .keep g.pre con
+
+theorem C06_gen_narrow (p : Pre) (l u : ER) : p.narrow l u = MpVerif.Gen.C06.narrow p l u := rfl
+theorem C06_gen_isConstant (p : Pre) : p.isConstant = MpVerif.Gen.C06.isConstant p := rfl
+theorem C06_gen_addBounds (a b : Pre) : addBounds a b = MpVerif.Gen.C06.addBounds a b := by
+  cases a with | mk al au ai => cases b with | mk bl bu bi => cases ai <;> cases bi <;> rfl
+theorem C06_gen_productBounds (e : Env) (x y : Nat) : productBounds e x y = MpVerif.Gen.C06.productBounds e x y := by
+  unfold productBounds MpVerif.Gen.C06.productBounds
+  by_cases h : x = y <;> simp [h, listMinElem, listMaxElem]
+
+theorem C06_gen_abs (e : Env) (a : Nat) : preproAbs e a = (MpVerif.Gen.C06.prepro_Abs e [a] []).toDecision (.abs a) := by
+  unfold preproAbs MpVerif.Gen.C06.prepro_Abs
+  simp only [List.getD_cons_zero]
+  by_cases h1 : le (fin 0) (e a).lb = true
+  · simp [h1, GOut.toDecision]
+  · by_cases h2 : le (e a).ub (fin 0) = true
+    · simp [h1, h2, GOut.toDecision, ER.neg]
+    · simp [h1, h2, GOut.toDecision]
+
+
+theorem C06_gen_withConst (r : Pre) (c0 : Rat) : withConst r c0 = MpVerif.Gen.C06.withConst r c0 := by
+  unfold withConst MpVerif.Gen.C06.withConst
+  rw [isInteger_fin]
+  cases r with | mk l u i => cases i <;> cases h : ratIsInt c0 <;> simp [h]
+
+theorem gen_linStep (e : Env) (t : Rat × Nat) (r : Pre) :
+    (let c := t.1; let b := e t.2
+     let r' : Pre := if 0 ≤ c then { r with lb := add r.lb (mul (fin c) b.lb), ub := add r.ub (mul (fin c) b.ub) }
+                     else { r with lb := add r.lb (mul (fin c) b.ub), ub := add r.ub (mul (fin c) b.lb) }
+     ({ r' with int := r'.int && (b.int && ratIsInt c) } : Pre)) = MpVerif.Gen.C06.linStep e t.1 t.2 r := by
+  unfold MpVerif.Gen.C06.linStep
+  rw [isInteger_fin, le_fin]
+  cases r with | mk l u i =>
+  by_cases hc : 0 ≤ t.1 <;> cases i <;> cases h1 : (e t.2).int <;> cases h2 : ratIsInt t.1 <;> simp [hc, h1, h2]
+
+/-- **generated tie**: `ComputeBoundsAndType(const LinTerms&)` — the hand model equals the fold (last term first, as the
+C++ loop) of the loop body translated from the source, started from the translated initialisation. -/
+theorem C06_gen_boundsLin (e : Env) (ts : LinT) :
+    boundsLin e ts = ts.foldr (fun t r => MpVerif.Gen.C06.linStep e t.1 t.2 r) MpVerif.Gen.C06.linInit := by
+  induction ts with
+  | nil => rfl
+  | cons t ts ih =>
+    rw [boundsLin_cons, List.foldr_cons, ← ih]
+    exact gen_linStep e t (boundsLin e ts)
+
+theorem gen_quadStep (e : Env) (t : Rat × Nat × Nat) (r : Pre) :
+    (let c := t.1; let v1 := t.2.1; let v2 := t.2.2
+     let pb := productBounds e v1 v2
+     let r' : Pre := if 0 ≤ c then { r with lb := add r.lb (mul (fin c) pb.1), ub := add r.ub (mul (fin c) pb.2) }
+                     else { r with lb := add r.lb (mul (fin c) pb.2), ub := add r.ub (mul (fin c) pb.1) }
+     ({ r' with int := r'.int && ((e v1).int && (e v2).int && ratIsInt c) } : Pre)) =
+      MpVerif.Gen.C06.quadStep e t.1 t.2.1 t.2.2 r := by
+  unfold MpVerif.Gen.C06.quadStep
+  rw [isInteger_fin, le_fin, ← C06_gen_productBounds]
+  cases r with | mk l u i =>
+  by_cases hc : 0 ≤ t.1 <;> cases i <;> cases h1 : (e t.2.1).int <;> cases h3 : (e t.2.2).int <;> cases h2 : ratIsInt t.1 <;>
+    simp [hc, h1, h2, h3]
+
+theorem C06_gen_boundsQuadT (e : Env) (qs : QuadT) :
+    boundsQuadT e qs = qs.foldr (fun t r => MpVerif.Gen.C06.quadStep e t.1 t.2.1 t.2.2 r) MpVerif.Gen.C06.quadInit := by
+  induction qs with
+  | nil => rfl
+  | cons t qs ih =>
+    rw [boundsQuadT_cons, List.foldr_cons, ← ih]
+    exact gen_quadStep e t (boundsQuadT e qs)
+
+theorem C06_gen_fixEqualityResult (b : Pre) (rhs : Rat) (p : Pre) :
+    fixEqualityResult b rhs p = MpVerif.Gen.C06.fixEqualityResult b (fin rhs) p := by
+  unfold fixEqualityResult MpVerif.Gen.C06.fixEqualityResult
+  rw [isInteger_fin]
+  cases hb : b.int <;> simp [hb]
+
+theorem C06_gen_roundRhs (kind : Int) (b : Pre) (rhs : Rat) :
+    fin (roundRhs kind b.int rhs) = MpVerif.Gen.C06.roundRhs kind b (fin rhs) := by
+  unfold roundRhs MpVerif.Gen.C06.roundRhs
+  have hi : (!(ER.eq (ER.floor (fin rhs)) (ER.ceil (fin rhs)))) = !ratIsInt rhs := by
+    rw [← isInteger_fin]; rfl
+  rw [hi]
+  cases hb : b.int <;> cases hr : ratIsInt rhs <;> simp [hb, hr, ER.floor, ER.ceil]
+  by_cases h1 : kind = 1
+  · simp [h1]
+  · by_cases h2 : kind = -1
+    · simp [h2]
+    · by_cases h3 : kind = 2
+      · simp [h3]
+      · have h1' : ¬ (1 = kind) := fun h => h1 h.symm
+        have h2' : ¬ (-1 = kind) := fun h => h2 h.symm
+        have h3' : ¬ (2 = kind) := fun h => h3 h.symm
+        simp [h1, h2, h3, h1', h2', h3']
+
+/-- which generated overload a constraint of the model is preprocessed by (the kinds whose overloads are translated) -/
+def genOverload (e : Env) : Con → Option GOut
+  | .abs a => some (MpVerif.Gen.C06.prepro_Abs e [a] [])
+  | .ifthen c t f => some (MpVerif.Gen.C06.prepro_IfThen e [c, t, f] [])
+  | .div a b => some (MpVerif.Gen.C06.prepro_Div e [a, b] [])
+  | .not a => some (MpVerif.Gen.C06.prepro_Not e [a] [])
+  | .alldiff as => some (MpVerif.Gen.C06.prepro_AllDiff e as [])
+  | .impl c t f => some (MpVerif.Gen.C06.prepro_Implication e [c, t, f] [])
+  | .count as => some (MpVerif.Gen.C06.prepro_Count e as [])
+  | .nconst k as => some (MpVerif.Gen.C06.prepro_NumberofConst e as [k])
+  | .nvar as => some (MpVerif.Gen.C06.prepro_NumberofVar e as [])
+  | .min as => some (MpVerif.Gen.C06.prepro_Min e as [])
+  | .max as => some (MpVerif.Gen.C06.prepro_Max e as [])
+  | .un .exp a => some (MpVerif.Gen.C06.prepro_Exp e [a] [])
+  | .un .log a => some (MpVerif.Gen.C06.prepro_Log e [a] [])
+  | .un .sin a => some (MpVerif.Gen.C06.prepro_Sin e [a] [])
+  | .un .cos a => some (MpVerif.Gen.C06.prepro_Cos e [a] [])
+  | .un .tan a => some (MpVerif.Gen.C06.prepro_Tan e [a] [])
+  | .un .asin a => some (MpVerif.Gen.C06.prepro_Asin e [a] [])
+  | .un .acos a => some (MpVerif.Gen.C06.prepro_Acos e [a] [])
+  | .un .atan a => some (MpVerif.Gen.C06.prepro_Atan e [a] [])
+  | .un .sinh a => some (MpVerif.Gen.C06.prepro_Sinh e [a] [])
+  | .un .cosh a => some (MpVerif.Gen.C06.prepro_Cosh e [a] [])
+  | .un .tanh a => some (MpVerif.Gen.C06.prepro_Tanh e [a] [])
+  | .un .asinh a => some (MpVerif.Gen.C06.prepro_Asinh e [a] [])
+  | .un .acosh a => some (MpVerif.Gen.C06.prepro_Acosh e [a] [])
+  | .un .atanh a => some (MpVerif.Gen.C06.prepro_Atanh e [a] [])
+  | .unp .expa a p => some (MpVerif.Gen.C06.prepro_ExpA e [a] [p])
+  | .unp .loga a p => some (MpVerif.Gen.C06.prepro_LogA e [a] [p])
+  | _ => none
+
+/-- **generated tie for the `PreprocessConstraint` overloads** translated from the source (abs, if-then-else, div, not, alldiff,
+implication, count, numberof-const/var, min, max, exp, a^x, log, log_a, sin … atanh): the hand model's decision and its
+argument narrowing are exactly what the translated overload computes. -/
+theorem C06_gen_prepro (e : Env) (c : Con) (g : GOut) (h : genOverload e c = some g) :
+    prepro e c = g.toDecision c ∧ argNarrowing e c = g.narrow.head? := by
+  cases c with
+  | abs a => injection h with h; subst h; exact ⟨C06_gen_abs e a, by
+      simp only [argNarrowing, MpVerif.Gen.C06.prepro_Abs]; split <;> [rfl; (split <;> rfl)]⟩
+  | un f a =>
+    cases f <;> injection h with h <;> subst h <;>
+      first
+      | exact ⟨rfl, rfl⟩
+      | (refine ⟨?_, ?_⟩
+         · simp only [prepro, MpVerif.Gen.C06.prepro_Log, List.getD_cons_zero]
+           split_ifs <;> rfl
+         · simp only [argNarrowing, MpVerif.Gen.C06.prepro_Log, List.getD_cons_zero]
+           split <;> simp [logLbLit] <;> norm_num)
+  | unp f a p => cases f <;> injection h with h <;> subst h <;> exact ⟨rfl, rfl⟩
+  | ifthen c t f => injection h with h; subst h; exact ⟨rfl, rfl⟩
+  | div a b =>
+    injection h with h; subst h
+    refine ⟨?_, ?_⟩
+    · simp only [prepro, preproDiv, MpVerif.Gen.C06.prepro_Div, List.getD_cons_zero, List.getD_cons_succ,
+        List.foldl_cons, List.foldl_nil]
+      split_ifs <;> rfl
+    · simp only [argNarrowing, MpVerif.Gen.C06.prepro_Div]
+      split_ifs <;> rfl
+  | not a => injection h with h; subst h; exact ⟨rfl, rfl⟩
+  | alldiff as => injection h with h; subst h; exact ⟨rfl, rfl⟩
+  | impl c t f => injection h with h; subst h; exact ⟨rfl, rfl⟩
+  | count as => injection h with h; subst h; exact ⟨rfl, rfl⟩
+  | nconst k as => injection h with h; subst h; exact ⟨rfl, rfl⟩
+  | nvar as =>
+    injection h with h; subst h
+    refine ⟨?_, rfl⟩
+    simp only [prepro, MpVerif.Gen.C06.prepro_NumberofVar, GOut.toDecision, ER.sub, ER.neg, ER.add]
+    congr 3
+    congr 1
+    push_cast; ring
+  | min as => injection h with h; subst h; exact ⟨rfl, rfl⟩
+  | max as => injection h with h; subst h; exact ⟨rfl, rfl⟩
+  | _ => simp [genOverload] at h
+
+
+/-- constraint types the model has a preprocessing rule for (`prepro` arms; PL has no rule in the source either: empty overload) -/
+def modelOverloadTypes : List String := ["ConditionalConstraint<AlgebraicConstraint<Body, AlgConRhs<kind>>>", "mp::AbsConstraint", "mp::AcosConstraint", "mp::AcoshConstraint", "mp::AllDiffConstraint", "mp::AndConstraint", "mp::AsinConstraint", "mp::AsinhConstraint", "mp::AtanConstraint", "mp::AtanhConstraint", "mp::CondLinConEQ", "mp::CondQuadConEQ", "mp::CosConstraint", "mp::CoshConstraint", "mp::CountConstraint", "mp::DivConstraint", "mp::ExpAConstraint", "mp::ExpConstraint", "mp::IfThenConstraint", "mp::ImplicationConstraint", "mp::LinearFunctionalConstraint", "mp::LogAConstraint", "mp::LogConstraint", "mp::MaxConstraint", "mp::MinConstraint", "mp::NotConstraint", "mp::NumberofConstConstraint", "mp::NumberofVarConstraint", "mp::OrConstraint", "mp::PLConstraint", "mp::PowConstraint", "mp::QuadraticFunctionalConstraint", "mp::SinConstraint", "mp::SinhConstraint", "mp::TanConstraint", "mp::TanhConstraint"]
+
+/-- **structure tie**: the set of `PreprocessConstraint` overloads in the source (first-parameter types, extracted from the AST on
+every run) is exactly the set of constraint types the model's `prepro` handles — an overload added to or removed from the
+source makes this fail. -/
+theorem C06_gen_overload_types : MpVerif.Gen.C06.overloadTypes = modelOverloadTypes := by decide
+
+/-! ## non-vacuity: concrete non-trivial instances of the hypotheses used by the theorems above -/
+
+/-- a box environment with a zero-crossing integer variable, a half-infinite continuous one and a binary one -/
+def exEnv : Env := fun i =>
+  if i = 0 then { lb := fin (-3), ub := fin 5, int := true }
+  else if i = 1 then { lb := fin (1 / 2), ub := pinf, int := false }
+  else { lb := fin 0, ub := fin 1, int := true }
+def exVal : Val := fun i => if i = 0 then -2 else if i = 1 then 7 / 2 else 1
+
+/-- `Feasible` (hypothesis of C06_lin, C06_abs, C06_min/max, C06_ifthen, C06_div, C06_pow_*, C06_and/or, …) is satisfiable by a
+non-trivial box (negative/positive/infinite bounds, mixed types) -/
+example : Feasible exEnv exVal := by
+  intro v
+  by_cases h0 : v = 0
+  · subst h0; refine ⟨by simp [exEnv, exVal, lbOK]; norm_num, by simp [exEnv, exVal, ubOK]; norm_num, fun _ => ⟨-2, by simp [exVal]⟩⟩
+  · by_cases h1 : v = 1
+    · subst h1; refine ⟨by simp [exEnv, exVal, lbOK]; norm_num, by simp [exEnv, ubOK], fun h => by simp [exEnv] at h⟩
+    · refine ⟨by simp [exEnv, exVal, h0, h1, lbOK], by simp [exEnv, exVal, h0, h1, ubOK], fun _ => ⟨1, by simp [exVal, h0, h1]⟩⟩
+
+/-- the binary-argument hypothesis of C06_and / C06_or / C06_prop_down holds for variable 2 and fails for variable 0 -/
+example : isBinaryVar exEnv 2 = true ∧ isBinaryVar exEnv 0 = false := by decide +kernel
+
+/-- `C06_quad` / `C06_product_bounds` need no finiteness: the box `exEnv` has an unbounded variable and a NaN corner (`0·∞`) -/
+example : (productBounds exEnv 1 2).2 = pinf ∧ mul (fin 0) pinf = nan := by decide +kernel
+
+/-- the instance that FAILED before fix 15ae342 satisfies every hypothesis of `C06_abs_assign`: x0 ∈ [7,9], x1 fixed at −2. -/
+def exAbsState : State :=
+  { vars := #[{ lb := fin 7, ub := fin 9, int := false }, { lb := fin (-2), ub := fin (-2), int := false }],
+    defs := #[none, none], fixed := [] }
+def exAbsVal : Val := fun i => if i = 0 then 8 else if i = 1 then -2 else 2
+
+example : exAbsState.WF ∧ FixedOK exAbsState ∧ (exAbsState.assign (.abs 1)).2 = .var 2 := by
+  refine ⟨by simp [State.WF, exAbsState], fun kv h => by simp [exAbsState] at h, by decide +kernel⟩
+
+example : Feasible exAbsState.env exAbsVal := by
+  intro v
+  by_cases h0 : v = 0
+  · subst h0
+    have : exAbsState.env 0 = { lb := fin 7, ub := fin 9, int := false } := by decide +kernel
+    rw [this]; refine ⟨by simp [lbOK, exAbsVal]; norm_num, by simp [ubOK, exAbsVal]; norm_num, fun h => by simp at h⟩
+  · by_cases h1 : v = 1
+    · subst h1
+      have : exAbsState.env 1 = { lb := fin (-2), ub := fin (-2), int := false } := by decide +kernel
+      rw [this]; refine ⟨by simp [lbOK, exAbsVal], by simp [ubOK, exAbsVal], fun h => by simp at h⟩
+    · have : exAbsState.env v = { lb := ninf, ub := pinf, int := false } := by
+        simp only [State.env, exAbsState, Array.getD]
+        have : ¬ v < 2 := by omega
+        simp [this]
+      rw [this]; exact ⟨trivial, trivial, fun h => by simp at h⟩
+
+/-- the result variable (x2, fixed at 2) has the value |x1| = 2, as `C06_abs_assign` states -/
+example : exAbsVal 2 = Con.eval (fun _ x => x) (fun _ _ x => x) exAbsVal (.abs 1) := by
+  simp [exAbsVal, Con.eval]
+
+/-- hypotheses of `C06_fix_equality` / `C06_gen_fixEqualityResult`: an integer body in [0,4] compared with 5/2 is fixed to false -/
+example : fixEqualityResult { lb := fin 0, ub := fin 4, int := true } (5 / 2) preBool = some (preBool.narrow (fin 0) (fin 0)) := by
+  decide +kernel
+
+/-- hypotheses of `C06_pow_neg` (x ≠ 0, lb ≥ 0) and the guard it encodes: at x = 0 the totalised `0 ^ (−1) = 0` of Lean would lie outside
+the inferred `[1/4, +∞]` for x ∈ [0,4] — which is why the theorem carries `val a ≠ 0` -/
+example : (0 : Rat) ^ (-1 : Int) = 0 ∧ ¬ ((1 : Rat) / 4 ≤ 0) := by norm_num
 
 end MpVerif.C06
